@@ -97,6 +97,25 @@ MUTANTS = [
      "                if not sequence_to_add.is_empty() or i == 0:\n                    tracks_bars[i].append(\n                        Bar(sequence_to_add, current_ts_numerator, current_ts_denominator,\n                            Key(current_key) if current_key is not None else None))", {"ONE"}),
     ("c09-extend", "C09", SEQ, "sequence_to_add.quantise_note_lengths(do_not_extend=True)", "sequence_to_add.quantise_note_lengths(do_not_extend=False)", {"SHORTEN"}),
     ("c09-strict-lookup", "C09", SEQ, "if timing[0] <= current_point_in_time)\n                                  , None)", "if timing[0] < current_point_in_time)\n                                  , None)", {"CLOCK"}),
+    ("c09-flush-into-fresh-piece", "C09", REL, "                        current_sequence = next_sequence\n                    break", "                        current_sequence = next_sequence\n                    current_sequence._messages.extend(next_sequence_queue)\n                    break", {"TAIL"}),
+    ("c09-flush-after-rounds", "C09", REL, "        # Check if still capacity left\n", "        current_sequence._messages.extend(next_sequence_queue)\n", {"TAIL"}),
+    ("c03-call-start-signature-snapshot", "C03", TOKF,
+     ("        cur_bar_has_notes = False\n\n        # Sanity check", "                msg_denominator = event_pairing[0].denominator\n"),
+     ("        cur_bar_has_notes = False\n        first_signature = (cur_time_signature_numerator, cur_time_signature_denominator)\n\n        # Sanity check",
+      "                msg_denominator = event_pairing[0].denominator\n                if (msg_numerator, msg_denominator) == first_signature:\n                    continue\n"), {"SNAP"}),
+    ("c13-open-memoised", "C13", "scoda/midi/midi_file.py", "        midi_file = MidiFile()\n        mido_midi_file = mido.MidiFile(filename)\n        midi_file.parse_mido(mido_midi_file)\n        return midi_file",
+     "        midi_file = MidiFile._opened.get(filename)\n        if midi_file is None:\n            midi_file = MidiFile()\n            mido_midi_file = mido.MidiFile(filename)\n            midi_file.parse_mido(mido_midi_file)\n            MidiFile._opened[filename] = midi_file\n        return midi_file", {"ENTRY"}),
+    ("c13-load-ignores-given-file", "C13", SEQ, "        if midi_file is None:\n            midi_file = MidiFile.open(file_path)", "        if file_path is not None:\n            midi_file = MidiFile.open(file_path)", {"ENTRY"}),
+    ("c13-default-groups-skip-first", "C13", SEQ, "track_indices = [[i] for i, _ in enumerate(midi_file.tracks)]", "track_indices = [[i] for i, _ in enumerate(midi_file.tracks) if i > 0]", {"ENTRY"}),
+    ("c13-meta-target-dropped", "C13", SEQ, "                                             meta_track_index=target_meta_track_index)", "                                             meta_track_index=0)", {"ENTRY"}),
+    ("c06-memoised-helper", "C06", "scoda/misc/util.py", "def find_minimal_distance(", "from functools import lru_cache\n\n\n@lru_cache(maxsize=None)\ndef find_minimal_distance(", {"MEMO"}),
+    ("c18-pad-sum-over-iterator", "C18", REL, "        current_length = 0\n        default_channel = None\n\n        for msg in self._messages:\n            if default_channel is None and msg.channel is not None:\n                default_channel = msg.channel\n\n            if msg.message_type == MessageType.WAIT:\n                current_length += msg.time\n\n                if current_length >= padding_length:\n                    break\n",
+     "        messages = iter(self._messages)\n        default_channel = next((msg.channel for msg in messages if msg.channel is not None), None)\n        current_length = sum(msg.time for msg in messages if msg.message_type == MessageType.WAIT)\n", {"MEASURE", "LAZY"}),
+    ("c01-top-bin-not-forced", "C01", "scoda/misc/util.py", "    bins[-1] = velocity_max\n", "", {"TOPBIN"}),
+    ("c01-digitize-left-closed", "C01", "scoda/misc/util.py", "right=True).item(-1)", "right=False).item(-1)", {"DIGITIZE"}),
+    ("c01-digitize-default-bins", "C01", "scoda/misc/util.py", "return np.digitize(velocity, bins, right=True).item(-1)", "return np.digitize(velocity, get_velocity_bins(), right=True).item(-1)", {"DIGITIZE"}),
+    ("c02-bins-not-deduplicated", "C02", TOKF, "self.velocity_bins = sorted({int(velocity_bin) for velocity_bin in get_velocity_bins(velocity_bins=velocity_bins)})",
+     "self.velocity_bins = [int(velocity_bin) for velocity_bin in get_velocity_bins(velocity_bins=velocity_bins)]", {"DISTINCT"}),
     ("c09-alias-input", "C09", SEQ, "sequences = [sequence for sequence in sequences_input]", "sequences = sequences_input", {"PURE"}),
     ("c09-half-length", "C09", SEQ, "length_bar = int(PPQN * (current_ts_numerator / (current_ts_denominator / 4)))", "length_bar = int(PPQN * (current_ts_numerator / (current_ts_denominator / 2)))", {"LEN"}),
     ("c09-swapped-sig", "C09", SEQ, "Bar(sequence_to_add, current_ts_numerator, current_ts_denominator,", "Bar(sequence_to_add, current_ts_denominator, current_ts_numerator,", {"SIG"}),
@@ -223,7 +242,7 @@ MUTANTS = [
     ("c02-missing-incr", "C02", TOKF, "        self.dictionary[TokenisationPrefixes.BAR.value] = 3\n        self._dictionary_size += 1", "        self.dictionary[TokenisationPrefixes.BAR.value] = 3", {"TPL2"}),
     ("c02-tsg-range", "C02", TOKF, "for time_signature in range(self.time_signature_range[0], self.time_signature_range[1] + 1):", "for time_signature in range(self.time_signature_range[0], self.time_signature_range[1]):", {"TPL1"}),
     ("c02-trailing-dash", "C02", TOKF, "            if token.endswith(\"-\"):\n                token = token[:-1]\n", "", {"TPL1"}),
-    ("c02-float-bins", "C02", TOKF, "self.velocity_bins = [int(velocity_bin) for velocity_bin in get_velocity_bins(velocity_bins=velocity_bins)]", "self.velocity_bins = get_velocity_bins(velocity_bins=velocity_bins)", {"NK2"}),
+    ("c02-float-bins", "C02", TOKF, "self.velocity_bins = sorted({int(velocity_bin) for velocity_bin in get_velocity_bins(velocity_bins=velocity_bins)})", "self.velocity_bins = sorted({velocity_bin for velocity_bin in get_velocity_bins(velocity_bins=velocity_bins)})", {"NK2"}),
     ("c02-inverse-early", "C02", TOKF, "        self.inverse_dictionary = {v: k for k, v in self.dictionary.items()}\n", "", {"TPL3"}),
     ("c02-no-int", "C02", TOKF, "prv_track = int(token_parts[i][1])", "prv_track = token_parts[i][1]", {"TPL4"}),
     ("c02-stale-id", "C02", TOKF, "            self.dictionary[token] = self.dictionary_size\n            self._dictionary_size += 1\n\n        for time_signature", "            self.dictionary[token] = len(self.dictionary) - 1\n            self._dictionary_size += 1\n\n        for time_signature", {"TPL2"}),
@@ -265,6 +284,21 @@ ANCHORS = {
 
 
 # ------------------------------------------------------------------------------------------------ rewrites
+# Hand-written behaviour-preserving refactorings (beyond the mechanical rewrite kinds): each is a list of (path, old, new)
+# replacements applied together; the check must stay silent on the result.  Every entry was first written to answer the
+# question "would a correct version of the change a seed made be reported?".
+EQUIVALENTS = [
+    ("pad-measure-as-sum", ("C18", "C10", "C09"), [(REL,
+      "        current_length = 0\n        default_channel = None\n\n        for msg in self._messages:\n            if default_channel is None and msg.channel is not None:\n                default_channel = msg.channel\n\n            if msg.message_type == MessageType.WAIT:\n                current_length += msg.time\n\n                if current_length >= padding_length:\n                    break\n",
+      "        default_channel = next((msg.channel for msg in self._messages if msg.channel is not None), None)\n        current_length = sum(msg.time for msg in self._messages if msg.message_type == MessageType.WAIT)\n")]),
+    ("transpose-shift-helper", ("C14",), [(REL,
+      "                msg.note += transpose_by\n                while msg.note < NOTE_LOWER_BOUND:\n                    had_to_shift = True\n                    msg.note += 12\n                while msg.note > NOTE_UPPER_BOUND:\n                    had_to_shift = True\n                    msg.note -= 12\n",
+      "                if RelativeSequence._shift_note(msg, transpose_by):\n                    had_to_shift = True\n"),
+      (REL, "    def transpose(self, transpose_by: int) -> bool:",
+      "    @staticmethod\n    def _shift_note(msg, transpose_by) -> bool:\n        wrapped = False\n        msg.note += transpose_by\n        while msg.note < NOTE_LOWER_BOUND:\n            wrapped = True\n            msg.note += 12\n        while msg.note > NOTE_UPPER_BOUND:\n            wrapped = True\n            msg.note -= 12\n        return wrapped\n\n    def transpose(self, transpose_by: int) -> bool:")]),
+]
+
+
 class _Rename(ast.NodeTransformer):
     def __init__(self, names: set[str]):
         self.names = names
@@ -560,6 +594,88 @@ class _Inline(ast.NodeTransformer):
         return node
 
 
+class _Truthy(ast.NodeTransformer):
+    """`len(x) > 0` / `len(x) != 0` / `len(x) >= 1` -> `x`, `len(x) == 0` -> `not x` where the comparison is used as a condition
+    (if / while tests and their and/or/not operands); `dict()` -> `{}`, `list()` -> `[]`."""
+
+    def __init__(self):
+        self.n = 0
+
+    def _cond(self, t):
+        if isinstance(t, ast.BoolOp):
+            t.values = [self._cond(v) for v in t.values]
+            return t
+        if isinstance(t, ast.UnaryOp) and isinstance(t.op, ast.Not):
+            t.operand = self._cond(t.operand)
+            return t
+        if isinstance(t, ast.Compare) and len(t.ops) == 1 and isinstance(t.left, ast.Call) and isinstance(t.left.func, ast.Name) and t.left.func.id == "len" \
+                and len(t.left.args) == 1 and isinstance(t.comparators[0], ast.Constant) and isinstance(t.left.args[0], (ast.Name, ast.Attribute)):
+            c0, op = t.comparators[0].value, type(t.ops[0])
+            x = t.left.args[0]
+            if (op is ast.Gt and c0 == 0) or (op is ast.NotEq and c0 == 0) or (op is ast.GtE and c0 == 1):
+                self.n += 1
+                return ast.copy_location(x, t)
+            if (op is ast.Eq and c0 == 0) or (op is ast.Lt and c0 == 1):
+                self.n += 1
+                return ast.copy_location(ast.UnaryOp(op=ast.Not(), operand=x), t)
+        return t
+
+    def visit_If(self, node):
+        self.generic_visit(node)
+        node.test = self._cond(node.test)
+        return node
+
+    def visit_While(self, node):
+        self.generic_visit(node)
+        node.test = self._cond(node.test)
+        return node
+
+    def visit_Call(self, node):
+        self.generic_visit(node)
+        if isinstance(node.func, ast.Name) and not node.args and not node.keywords:
+            if node.func.id == "dict":
+                self.n += 1
+                return ast.copy_location(ast.Dict(keys=[], values=[]), node)
+            if node.func.id == "list":
+                self.n += 1
+                return ast.copy_location(ast.List(elts=[], ctx=ast.Load()), node)
+        return node
+
+
+class _IsEnum(ast.NodeTransformer):
+    """`x == Enum.MEMBER` -> `x is Enum.MEMBER`, `!=` -> `is not` (enum members are singletons)."""
+
+    def __init__(self, enums):
+        self.n = 0
+        self.enums = enums
+
+    def visit_Compare(self, node):
+        self.generic_visit(node)
+        if len(node.ops) == 1 and isinstance(node.ops[0], (ast.Eq, ast.NotEq)):
+            r = node.comparators[0]
+            if isinstance(r, ast.Attribute) and isinstance(r.value, ast.Name) and r.value.id in self.enums:
+                self.n += 1
+                node.ops = [ast.Is() if isinstance(node.ops[0], ast.Eq) else ast.IsNot()]
+        return node
+
+
+class _Ternary(ast.NodeTransformer):
+    """`if c: x = a` / `else: x = b` (one plain assignment to the same simple name on both sides) -> `x = a if c else b`."""
+
+    def __init__(self):
+        self.n = 0
+
+    def visit_If(self, node):
+        self.generic_visit(node)
+        if len(node.body) == 1 and len(node.orelse) == 1 and all(isinstance(b, ast.Assign) and len(b.targets) == 1 and isinstance(b.targets[0], ast.Name)
+                                                                 for b in (node.body[0], node.orelse[0])) \
+                and node.body[0].targets[0].id == node.orelse[0].targets[0].id:
+            self.n += 1
+            return ast.copy_location(ast.Assign(targets=[node.body[0].targets[0]],
+                                                value=ast.IfExp(test=node.test, body=node.body[0].value, orelse=node.orelse[0].value)), node)
+        return node
+
+
 class _SwapCmp(ast.NodeTransformer):
     """`a < b` -> `b > a`, `a == b` -> `b == a` ... for single comparisons (not `in` / `is`)."""
     _MIRROR = {ast.Lt: ast.Gt, ast.Gt: ast.Lt, ast.LtE: ast.GtE, ast.GtE: ast.LtE, ast.Eq: ast.Eq, ast.NotEq: ast.NotEq}
@@ -623,6 +739,21 @@ def rewrite_function(program: Program, qualname: str, kind: str) -> Program | No
         w.visit(target)
         if w.n == 0:
             return None
+    elif kind == "truthy":
+        w = _Truthy()
+        w.visit(target)
+        if w.n == 0:
+            return None
+    elif kind == "isenum":
+        w = _IsEnum(set(program.enums))
+        w.visit(target)
+        if w.n == 0:
+            return None
+    elif kind == "ternary":
+        w = _Ternary()
+        w.visit(target)
+        if w.n == 0:
+            return None
     elif kind == "swapcmp":
         w = _SwapCmp()
         w.visit(target)
@@ -673,8 +804,20 @@ def _job(job):
     base = _BASE
     if kind == "mutant":
         _, _, mid, path, old, new = job
-        var = base.with_source(path, base.sources[path].replace(old, new, 1))
+        text = base.sources[path]
+        for o_, n_ in (zip(old, new) if isinstance(old, tuple) else [(old, new)]):      # several sites of one change
+            text = text.replace(o_, n_, 1)
+        var = base.with_source(path, text)
         tag = mid
+    elif kind == "equiv":
+        _, _, eid, reps = job
+        var = base
+        tag = f"equiv:{eid}"
+        for path, old, new in reps:
+            if old not in var.sources.get(path, ""):
+                return tag, "rewrite", "anchor function missing", []
+            var = var.with_source(path, var.sources[path].replace(old, new, 1))
+        kind = "rewrite"
     else:
         _, _, q, rk = job
         if rk == "reformat":
@@ -763,11 +906,15 @@ def run(ctx: Ctx) -> None:
         if mprop != prop:
             continue
         srcs = ctx.p.sources.get(path)
-        if srcs is None or old not in srcs:
+        pairs = list(zip(old, new)) if isinstance(old, tuple) else [(old, new)]
+        if srcs is None or any(o_ not in srcs for o_, _ in pairs):
             skipped.append(mid)
             continue
         try:
-            ast.parse(srcs.replace(old, new, 1))
+            t_ = srcs
+            for o_, n_ in pairs:
+                t_ = t_.replace(o_, n_, 1)
+            ast.parse(t_)
         except SyntaxError:
             skipped.append(mid)
             continue
@@ -777,8 +924,11 @@ def run(ctx: Ctx) -> None:
     targets += sorted(q for q in ctx.analysed_functions if q not in targets and q in ctx.p.functions)     # everything the check looked at
     jobs.append(("rewrite", prop, "<whole tree>", "reformat"))
     for q in targets:
-        for kind in ("rename", "aug", "pass", "hoist", "flip", "demorgan", "swapcmp", "swapstmt", "temp", "unroll", "inline"):
+        for kind in ("rename", "aug", "pass", "hoist", "flip", "demorgan", "swapcmp", "swapstmt", "temp", "unroll", "inline", "truthy", "isenum", "ternary"):
             jobs.append(("rewrite", prop, q, kind))
+    for eid, props, reps in EQUIVALENTS:
+        if prop in props:
+            jobs.append(("equiv", prop, eid, reps))
     _BASE = ctx.p
     nproc = max(1, min(16, os.cpu_count() or 1, len(jobs)))
     if nproc > 1 and len(jobs) > 3:
